@@ -496,6 +496,13 @@ func (s *ObjectStorage) SetEncodedObject(o plumbing.EncodedObject) (h plumbing.H
 		return plumbing.ZeroHash, err
 	}
 
+	// The id is the one the object is stored under: the writer hashes with
+	// the repository's object format, whatever hasher o itself carries.
+	defer func() {
+		if err == nil {
+			h = ow.Hash()
+		}
+	}()
 	defer ioutil.CheckClose(ow, &err)
 
 	or, err := o.Reader()
@@ -513,7 +520,7 @@ func (s *ObjectStorage) SetEncodedObject(o plumbing.EncodedObject) (h plumbing.H
 		return plumbing.ZeroHash, err
 	}
 
-	return o.Hash(), err
+	return plumbing.ZeroHash, nil
 }
 
 // LazyWriter returns a lazy ObjectWriter that is bound to a DotGit file.
